@@ -618,6 +618,19 @@ func execute(cs Case) (res Result) {
 			}
 			continue
 		}
+		if st.Kind == "burst" {
+			for _, b := range st.Burst {
+				conn(b.Conn).write(b.Raw)
+			}
+			res.Sent++
+			if !settle() {
+				return failf("hang", "library not quiescent after the burst of step %d", i)
+			}
+			for _, k := range sortedKeys(conns) {
+				conns[k].poll()
+			}
+			continue
+		}
 		if st.Kind == "stall" {
 			c := conn(st.Conn)
 			c.poll()
